@@ -1,7 +1,7 @@
 """Generator of .osu (v14, mania) texts, class-based."""
 from __future__ import annotations
 
-TEXTS = ["Line\u2028Sep", "NEL\x85here", "Form\x0cfeed", "Unit\x1fsep", "Caravan", "夜に駆ける", "Ünïcode", "a b c", "x_y-z", "", "2nd", "A, B & C", "élan vital", "Title (TV Size)", "http://example.com/ost", "7K // Another"]
+TEXTS = ["Line\u2028Sep", "NEL\x85here", "Form\x0cfeed", "Unit\x1fsep", "Caravan", "夜に駆ける", "Ünïcode", "a b c", "x_y-z", "", "2nd", "A, B & C", "élan vital", "Title (TV Size)", "http://example.com/ost", "7K // Another", "Insane [7K]", "[Extended]", "Song [TV Size]"]
 COLON_TEXTS = ["Re:Title", "a:b:c", "Re: Zero", "12:30"]
 FILES = ["hit.wav", "clap.ogg", "snare 2.wav", "kick.wav", "a-b_c.wav"]
 
@@ -23,7 +23,7 @@ def gen_text(rng, cls):
          "[Editor]", f"DistanceSpacing: {rng.choice(['1', '1.2', '4'])}", f"BeatDivisor: {rng.choice([4, 8, 16])}",
          f"GridSize: {rng.choice([4, 8, 32])}", f"TimelineZoom: {rng.choice(['1', '0.3', '2.5'])}", "",
          "[Metadata]", f"Title:{txt()}", f"TitleUnicode:{txt()}", f"Artist:{txt()}", f"ArtistUnicode:{txt()}",
-         f"Creator:{txt()}", f"Version:{txt()}", f"Source:{txt()}", f"Tags:{rng.choice(['', 'a b c', 'tag', 'x  y', '東方\u3000Project remix', 'no\u00a0break tag', 'tab\there', 'a//b c'])}",
+         f"Creator:{txt()}", f"Version:{txt()}", f"Source:{txt()}", f"Tags:{rng.choice(['', 'a b c', 'tag', 'x  y', '東方\u3000Project remix', 'no\u00a0break tag', 'tab\there', 'a//b c', 'a b [4K]'])}",
          f"BeatmapID:{rng.choice([0, 123456])}", f"BeatmapSetID:{rng.choice([-1, 4321])}", "",
          "[Difficulty]", f"HPDrainRate:{rng.choice(['5', '7.5', '8'])}", f"CircleSize:{keys}",
          f"OverallDifficulty:{rng.choice(['5', '8.2', '10'])}", f"ApproachRate:{rng.choice(['5', '9'])}",
